@@ -115,5 +115,9 @@ RSum(F(_), a, b) == IF a > b THEN Zero ELSE RAdd(F(a), RSum(F, a + 1, b))
 \* sum of F(i) for i in lo..hi (empty sum = 0); F is an operator (LAMBDA)
 RSumFn(F(_), lo, hi) == RSumSeq([i \in 1..((hi - lo) + 1) |-> F((lo + i) - 1)])
 
+\* equality that holds vacuously when an operand overflowed (used by invariants: a state whose
+\* *check* overflows is not a counterexample)
+REqOrOvf(a, b) == IsOvf(a) \/ IsOvf(b) \/ a = b
+
 SeqHasOvf(s) == \E i \in 1..Len(s) : IsOvf(s[i])
 =============================================================================
